@@ -434,6 +434,6 @@ func TestCheck(t *testing.T) {
 			"every command content (prewrite / commit of one key) is proposed once, so 'that same command' is identified by content hash",
 			"virtual time (testing/synctest): ProposeCommand's timeout expires only at sleep steps",
 		}}
-	pbt.Add(s, &pbt.Spec[Case]{Name: "script", Gen: gen, Run: run, Quick: 1200, Thorough: 20000, Shards: 8})
+	pbt.Add(s, &pbt.Spec[Case]{Name: "script", Gen: gen, Run: run, Quick: 1000, Thorough: 20000, Shards: 8})
 	s.Main(t)
 }
